@@ -2,9 +2,9 @@
 # run every registered check (tier = $1, default quick); prints one status line per property
 TIER=${1:-quick}
 rc_all=0
-for p in $(python3 -c "import json;print(' '.join(c['property_id'] for c in json.load(open('/verif/MANIFEST.json'))['checks']))"); do
+for p in $(python3 -c "import json;print(' '.join(c['property_id'] for c in json.load(open('$(dirname "$0")/MANIFEST.json'))['checks']))"); do
   t0=$(date +%s)
-  out=$(python3 /verif/run_check.py $p --tier $TIER 2>&1); rc=$?
+  out=$(python3 $(dirname "$0")/run_check.py $p --tier $TIER 2>&1); rc=$?
   echo "$p rc=$rc $(( $(date +%s) - t0 ))s :: $(echo "$out" | tail -1 | cut -c1-200)"
   [ $rc -ne 0 ] && rc_all=1
 done
